@@ -76,11 +76,13 @@ struct Case {
     return 1 + (unsigned)rng.below(cap);
   }
 
-  void op(const char* name, long a = NOARG, long b = NOARG) {
+  //! records one operation of the sequence; keyName: the operation kind used in violation keys when several
+  //! spellings of the API are one operation
+  void op(const char* name, long a = NOARG, long b = NOARG, const char* keyName = nullptr) {
     ++ops;
-    lastOp = name;
-    noteProgress(name);
-    kinds.insert(lastOp);
+    lastOp = keyName ? keyName : name;
+    noteProgress(lastOp.c_str());
+    kinds.insert(name);
     std::string s = name;
     if (a != NOARG) {
       s += "(" + std::to_string(a);
@@ -96,6 +98,11 @@ struct Case {
       verif::progress();
   }
 
+  //! phase marker that is not an operation of the sequence (e.g. "destructor")
+  void phase(const char* name) {
+    lastOp = name;
+    noteProgress(name);
+  }
   std::string history(size_t maxn = 80) const {
     std::string s;
     size_t from = hist.size() > maxn ? hist.size() - maxn : 0;
